@@ -328,6 +328,14 @@ impl<'a, 'tcx> Cx<'a, 'tcx> {
                     }
                 } else if let Const::Unevaluated(u, _) = c.const_ {
                     let _ = write!(s, ",\"uneval\":{}", js(&dpath(tcx, u.def)));
+                    // named constants without generic parameters (`const LABEL_BYTES: usize = ..`): their value
+                    if u.args.is_empty() && u.promoted.is_none() {
+                        if let Ok(ConstValue::Scalar(sc)) = c.const_.eval(tcx, ty::TypingEnv::fully_monomorphized(), c.span) {
+                            if let Ok(si) = sc.try_to_scalar_int() {
+                                val = Some(format!("{}", si.to_bits_unchecked()));
+                            }
+                        }
+                    }
                 }
                 if let Some(v) = val {
                     let _ = write!(s, ",\"v\":{}", js(&v));
